@@ -28,7 +28,7 @@ def h_append_trail(interp: Interp, st: St, args, kwargs):
     (trails are stored outermost-last in the model, so this is an append)"""
     obj, el = args
     _append(interp, st, interp.term(st, obj), interp.term(st, el))
-    interp.ctx.assume_note("contract of struct_trail.append_trail used at call sites (verified as its own unit)")
+    interp.ctx.assume_note("contract of struct_trail.append_trail used at call sites (checked on the bounded helper family of props/C05.py)")
     yield st, ("ok", obj)
 
 
@@ -41,7 +41,7 @@ def h_extend_trail(interp: Interp, st: St, args, kwargs):
             raise Unsupported("extend_trail with failing iterable")
         for it in reversed(r[1]):
             _append(interp, s, et, interp.term(s, it))
-        interp.ctx.assume_note("contract of struct_trail.extend_trail used at call sites (verified as its own unit)")
+        interp.ctx.assume_note("contract of struct_trail.extend_trail used at call sites (checked on the bounded helper family of props/C05.py)")
         yield s, ("ok", obj)
 
 
